@@ -27,7 +27,7 @@ MANIFEST = {
             'the level is other.',
     'note': 'Trusted: the fst back end (own code, validated per run), the denotation spec, minterm abstraction (completeness checked over '
             'ASCII + sample Unicode). Assumed: re.finditer splitting in path_str_to_parts (validated by enumeration to length 5, labelled '
-            'bounded); double-quoted path strings used as identifiers are split by design (excluded). Floats: bounded grid only.',
+            'bounded). Floats: bounded grid only.',
 }
 
 
@@ -722,6 +722,18 @@ def bounded(rep, tier):
                 if bad:
                     pr = d.prods[num]
                     fails.setdefault(f'C04.bounded.{dname}.ident-position.{pr.name}', (sql2, f'an Identifier of the tree has the part {bad[0]!r}: the delimiters were not removed (production {pr.name}: {" ".join(pr.prod)})'))
+            # a quoted name that contains a dot is ONE name: written back-quoted or double-quoted, alone or as the second part of a path
+            for form in ('`A.b`', '"A.b"', 'abc.`A.b`', 'abc."A.b"'):
+                sql3 = ' '.join(form if t == 'abc' else t for t in toks)
+                n += 1
+                try:
+                    tree = parse_sql(sql3, dialect=dname)
+                except Exception:
+                    continue
+                for idn in idents(tree, set()):
+                    if any(isinstance(p_, str) and p_ in ('A', 'b', '`A', 'b`', '"A', 'b"') for p_ in idn.parts):
+                        pr = d.prods[num]
+                        fails.setdefault(f'C04.bounded.{dname}.ident-dot.{pr.name}', (sql3, f'an Identifier of the tree has the parts {idn.parts!r}: the quoted name A.b was split at its dot (production {pr.name}: {" ".join(pr.prod)})'))
     # names the grammar actions treat specially (string constants they compare a lower()/upper()-cased name with, e.g. 'last'): as the last part of a
     # qualified name they are ordinary column names - the identifier path keeps all its parts and their case, exactly as it does for any other name
     import ast as _ast
@@ -824,4 +836,6 @@ def check(rep, tier):
         identifiers(rep, dname)
         integers(rep, dname)
     bounded(rep, tier)
+    from vlib import preproc
+    preproc.obligation(rep, 'C04', tier, dialects=('mindsdb', 'mysql', 'sqlite'), lead_semicolons=True)      # the token regexes see the statement text itself
     rep.notes.append('Literal/identifier codecs decided for all strings per region; see known findings for the failing regions.')
